@@ -348,6 +348,12 @@ let rec map f = function
 | [] -> []
 | a :: t -> (f a) :: (map f t)
 
+(** val flat_map : ('a1 -> 'a2 list) -> 'a1 list -> 'a2 list **)
+
+let rec flat_map f = function
+| [] -> []
+| x :: t -> app (f x) (flat_map f t)
+
 (** val fold_left : ('a1 -> 'a2 -> 'a1) -> 'a2 list -> 'a1 -> 'a1 **)
 
 let rec fold_left f l a0 =
@@ -360,6 +366,18 @@ let rec fold_left f l a0 =
 let rec fold_right f a0 = function
 | [] -> a0
 | b :: t -> f b (fold_right f a0 t)
+
+(** val forallb : ('a1 -> bool) -> 'a1 list -> bool **)
+
+let rec forallb f = function
+| [] -> true
+| a :: l0 -> (&&) (f a) (forallb f l0)
+
+(** val filter : ('a1 -> bool) -> 'a1 list -> 'a1 list **)
+
+let rec filter f = function
+| [] -> []
+| x :: l0 -> if f x then x :: (filter f l0) else filter f l0
 
 (** val find : ('a1 -> bool) -> 'a1 list -> 'a1 option **)
 
@@ -606,6 +624,21 @@ let gf_CoefficientTolerance =
 let prepare_copies_tolerances =
   true
 
+(** val compute_sizes_table_before_vanishing_test : bool **)
+
+let compute_sizes_table_before_vanishing_test =
+  false
+
+(** val compute_guards_empty_reduce : bool **)
+
+let compute_guards_empty_reduce =
+  false
+
+(** val add_term_retries : bool **)
+
+let add_term_retries =
+  false
+
 (** val permutations3 : (((int * int) * int) * z) list **)
 
 let permutations3 =
@@ -850,25 +883,40 @@ let set_find comp t l =
   | [] -> None
   | e :: _ -> if comp t e then None else Some e
 
+type 't ins_res =
+| Inserted of 't list
+| Blocked of 't list * 't * 't list
+
+(** val set_insert_res :
+    ('a1 -> 'a1 -> bool) -> 'a1 -> 'a1 list -> 'a1 ins_res **)
+
+let set_insert_res comp t l =
+  let (a, b) = split_upper comp t l in
+  (match rev a with
+   | [] -> Inserted (t :: b)
+   | pred :: ra ->
+     if comp pred t
+     then Inserted (app a (t :: b))
+     else Blocked ((rev ra), pred, b))
+
 (** val set_insert :
     ('a1 -> 'a1 -> bool) -> 'a1 -> 'a1 list -> bool * 'a1 list **)
 
 let set_insert comp t l =
-  let (a, b) = split_upper comp t l in
-  (match rev a with
-   | [] -> (true, (t :: b))
-   | pred :: _ -> if comp pred t then (true, (app a (t :: b))) else (false, l))
+  match set_insert_res comp t l with
+  | Inserted l' -> (true, l')
+  | Blocked (_, _, _) -> (false, l)
 
 (** val set_erase : ('a1 -> 'a1 -> bool) -> 'a1 -> 'a1 list -> 'a1 list **)
 
 let set_erase comp k l =
   let (a, b) = split_lower comp k l in app a (snd (split_upper comp k b))
 
-(** val add_term :
+(** val add_term_plain :
     ('a1 -> 'a1 -> bool) -> ('a1 -> 'a1 -> 'a1) -> ('a1 -> int -> bool) ->
     'a1 -> 'a1 list -> bool * 'a1 list **)
 
-let add_term comp plus negl t l =
+let add_term_plain comp plus negl t l =
   match set_find comp t l with
   | Some e ->
     let sum = plus e t in
@@ -877,6 +925,39 @@ let add_term comp plus negl t l =
     then (true, l')
     else set_insert comp sum l'
   | None -> set_insert comp t l
+
+(** val add_term_loop :
+    ('a1 -> 'a1 -> bool) -> ('a1 -> 'a1 -> 'a1) -> ('a1 -> int -> bool) ->
+    int -> 'a1 -> 'a1 list -> bool * 'a1 list **)
+
+let rec add_term_loop comp plus negl fuel sum l =
+  match set_insert_res comp sum l with
+  | Inserted l' -> (true, l')
+  | Blocked (a, e, b) ->
+    let reduced = plus e sum in
+    let l' = app a b in
+    if negl reduced (add (length l') (Stdlib.Int.succ 0))
+    then (true, l')
+    else ((fun fO fS n -> if n=0 then fO () else fS (n-1))
+            (fun _ -> (false, l'))
+            (fun f -> add_term_loop comp plus negl f reduced l')
+            fuel)
+
+(** val add_term_gen :
+    ('a1 -> 'a1 -> bool) -> ('a1 -> 'a1 -> 'a1) -> ('a1 -> int -> bool) ->
+    bool -> 'a1 -> 'a1 list -> bool * 'a1 list **)
+
+let add_term_gen comp plus negl retry t l =
+  if retry
+  then add_term_loop comp plus negl (length l) t l
+  else add_term_plain comp plus negl t l
+
+(** val add_term :
+    ('a1 -> 'a1 -> bool) -> ('a1 -> 'a1 -> 'a1) -> ('a1 -> int -> bool) ->
+    'a1 -> 'a1 list -> bool * 'a1 list **)
+
+let add_term comp plus negl =
+  add_term_gen comp plus negl add_term_retries
 
 (** val abs_gt : 'a1 numops -> 'a1 -> 'a1 -> bool **)
 
@@ -1222,6 +1303,50 @@ let emit nO tl0 st ge =
           (if ok then st.ps_refused else Stdlib.Int.succ st.ps_refused) })
   else st
 
+(** val part_emissions :
+    'a1 numops -> int -> 'a1 tols -> 'a1 part_in -> 'a1 emission list outcome **)
+
+let part_emissions nO g tl0 p =
+  bind (part_visits nO g p) (fun vs -> Done
+    (map snd (filter fst (concat (map (visit_emissions nO tl0 p) vs)))))
+
+(** val sep_pair : 'a1 numops -> 'a1 -> 'a1 -> 'a1 -> bool **)
+
+let sep_pair nO tol x y =
+  let d = nO.nabs (nO.nsub x y) in
+  (||) (negb (nO.nre_ltb (nO.ndiv tol (nO.nofZ (Zpos (XO (XO XH))))) d))
+    (negb (nO.nre_ltb d (nO.nmul (nO.nofZ (Zpos (XO XH))) tol)))
+
+(** val separated_b : 'a1 numops -> 'a1 -> 'a1 list -> bool **)
+
+let separated_b nO tol vals =
+  forallb (fun x -> forallb (sep_pair nO tol x) vals) vals
+
+(** val em_poles :
+    'a1 numops -> bool -> bool -> int -> 'a1 emission -> 'a1 list **)
+
+let em_poles nO res flag k = function
+| EmitNonRes (_, p1, p2, p3, f) ->
+  if (&&) (negb res) (eqb f flag)
+  then (nth k (p1 :: (p2 :: (p3 :: []))) nO.n0) :: []
+  else []
+| EmitRes (_, _, p1, p2, p3, f) ->
+  if (&&) res (eqb f flag)
+  then (nth k (p1 :: (p2 :: (p3 :: []))) nO.n0) :: []
+  else []
+
+(** val emissions_separated_b :
+    'a1 numops -> 'a1 tols -> 'a1 emission list -> bool **)
+
+let emissions_separated_b nO tl0 es =
+  forallb (fun res ->
+    forallb (fun flag ->
+      forallb (fun k ->
+        separated_b nO (if res then tl0.t_cmp_r else tl0.t_cmp_nr)
+          (flat_map (em_poles nO res flag k) es)) (0 :: ((Stdlib.Int.succ
+        0) :: ((Stdlib.Int.succ (Stdlib.Int.succ 0)) :: []))))
+      (false :: (true :: []))) (false :: (true :: []))
+
 (** val part_compute :
     'a1 numops -> int -> 'a1 tols -> 'a1 part_in -> 'a1 part_st outcome **)
 
@@ -1513,21 +1638,21 @@ let rec run_parts nO g tl0 clear fill freqs ps data =
       bind (run_parts nO g tl0 clear fill freqs r (snd sd)) (fun rd -> Done
         (((p, (fst sd)) :: (fst rd)), (snd rd))))
 
-(** val gf_compute :
-    'a1 numops -> bool -> int -> 'a1 tols -> bool -> (('a1 * 'a1) * 'a1) list
-    -> 'a1 gf_st -> ('a1 list * 'a1 gf_st) outcome **)
+(** val gf_compute_gen :
+    'a1 numops -> bool -> bool -> int -> 'a1 tols -> bool ->
+    (('a1 * 'a1) * 'a1) list -> 'a1 gf_st -> ('a1 list * 'a1 gf_st) outcome **)
 
-let gf_compute nO fixed g tl0 clear freqs s =
+let gf_compute_gen nO size_first guard_reduce g tl0 clear freqs s =
   match s.g_status with
   | Constructed -> Throws (Stdlib.Int.succ (Stdlib.Int.succ 0))
   | Prepared ->
-    let m_data0 = if fixed then repeat nO.n0 (length freqs) else [] in
+    let m_data0 = if size_first then repeat nO.n0 (length freqs) else [] in
     if negb s.g_vanishing
     then let fill = negb ((=) (length freqs) 0) in
          let m_data = repeat nO.n0 (length freqs) in
          bind (run_parts nO g tl0 clear fill freqs s.g_parts m_data)
            (fun pd ->
-           if (&&) (negb fixed)
+           if (&&) (negb guard_reduce)
                 (match snd pd with
                  | [] -> true
                  | _ :: _ -> false)
@@ -1537,6 +1662,14 @@ let gf_compute nO fixed g tl0 clear freqs s =
     else Done (m_data0, { g_status = Computed; g_parts = s.g_parts;
            g_vanishing = s.g_vanishing })
   | Computed -> Done ([], s)
+
+(** val gf_compute :
+    'a1 numops -> int -> 'a1 tols -> bool -> (('a1 * 'a1) * 'a1) list -> 'a1
+    gf_st -> ('a1 list * 'a1 gf_st) outcome **)
+
+let gf_compute nO =
+  gf_compute_gen nO compute_sizes_table_before_vanishing_test
+    compute_guards_empty_reduce
 
 (** val f_tols : (Float64.t -> Float64.t) -> fc tols **)
 
@@ -1566,6 +1699,19 @@ let f_part_compute fexp =
 let f_part_visits fexp =
   part_visits (fops fexp)
 
+(** val f_part_emissions :
+    (Float64.t -> Float64.t) -> int -> fc tols -> fc part_in -> fc emission
+    list outcome **)
+
+let f_part_emissions fexp =
+  part_emissions (fops fexp)
+
+(** val f_emissions_separated_b :
+    (Float64.t -> Float64.t) -> fc tols -> fc emission list -> bool **)
+
+let f_emissions_separated_b fexp =
+  emissions_separated_b (fops fexp)
+
 (** val f_part_eval :
     (Float64.t -> Float64.t) -> fc tols -> fc part_in -> fc part_st -> fc ->
     fc -> fc -> fc outcome **)
@@ -1574,11 +1720,18 @@ let f_part_eval fexp =
   part_eval (fops fexp)
 
 (** val f_gf_compute :
-    (Float64.t -> Float64.t) -> bool -> int -> fc tols -> bool ->
-    ((fc * fc) * fc) list -> fc gf_st -> (fc list * fc gf_st) outcome **)
+    (Float64.t -> Float64.t) -> int -> fc tols -> bool -> ((fc * fc) * fc)
+    list -> fc gf_st -> (fc list * fc gf_st) outcome **)
 
 let f_gf_compute fexp =
   gf_compute (fops fexp)
+
+(** val f_gf_compute_gen :
+    (Float64.t -> Float64.t) -> bool -> bool -> int -> fc tols -> bool ->
+    ((fc * fc) * fc) list -> fc gf_st -> (fc list * fc gf_st) outcome **)
+
+let f_gf_compute_gen fexp =
+  gf_compute_gen (fops fexp)
 
 (** val f_gf_value :
     (Float64.t -> Float64.t) -> fc tols -> fc gf_st -> fc -> fc -> fc -> fc
